@@ -282,6 +282,13 @@ func (k KeyRing) VerifyJSONs(ctx context.Context, requests []VerifyJSONRequest) 
 
 		// Hold the new keys and remove them from the request queue.
 		for req, res := range fetched {
+			if _, requested := keyRequests[req]; !requested {
+				if _, held := keysFetched[req]; held {
+					// The fetcher was not asked for this key: what it volunteers must not
+					// replace a key that the database holds within its validity.
+					continue
+				}
+			}
 			keysFetched[req] = res
 			delete(keyRequests, req)
 		}
